@@ -9,7 +9,7 @@
     (unknown type name); [OutOfFuel] fuel exhausted. *)
 From Coq Require Import String Lia.
 From FA Require Import model.Base model.Varint model.Value model.Schema model.Utf8 model.Float model.Codec
-                       model.Validate model.Write model.Read model.Conform proofs.ElabProofs.
+                       model.Validate model.Write model.Read model.Conform proofs.ElabProofs proofs.ElabFloats.
 
 (** whenever the validator returns (any fuel that does not run out), it returns True exactly on conforming data *)
 Theorem C10_iff : forall f o e s v b, validate f o e s (Some v) = Ok b -> (b = true <-> conformsP o e s v).
@@ -55,11 +55,12 @@ Theorem C10_gate : forall f o e s buf v, validate f o e s (Some v) = Ok false ->
 Proof. exact writer_gate. Qed.
 Print Assumptions C10_gate.
 
-(** what validate accepts is a well-typed wire value once elaborated (then C01 gives the round trip) *)
+(** what validate accepts is a well-typed wire value once elaborated (then C01 gives the round trip).  [data_ok]: the
+    well-formedness the abstraction of Python objects / parsed schemas always has (see props/C01.v); the range of the
+    float leaves is derived (proofs/ElabFloats.v over proofs/FloatProofs.v: Reals axioms + classic, allow-listed) *)
 Theorem C10_accepted_typed : forall f o e s v a,
-  elab f o e s v = WOk a -> wf_env e = true -> wf_schema s = true -> wf_py v = true -> floats_ok a = true ->
-  exists n, (n <= f)%nat /\ typedn n e s a.
-Proof. exact elab_typed. Qed.
+  elab f o e s v = WOk a -> data_ok e s v -> exists n, (n <= f)%nat /\ typedn n e s a.
+Proof. exact elab_typed_py. Qed.
 Print Assumptions C10_accepted_typed.
 
 (** "everything validate accepts the writer encodes" is FALSE of the faithful model without side conditions: *)
@@ -122,16 +123,15 @@ Proof. exact none_nullok. Qed.
 Print Assumptions C10_absent_field_agrees.
 
 (** accepted => encoded => read back: the writer's bytes decode to the value [py_of a] (the documented normalisation
-    of the datum, C01), consuming exactly those bytes; [floats_ok a] is the unproved float-range side condition *)
+    of the datum, C01), consuming exactly those bytes; no hypothesis on the elaborated value remains *)
 Theorem C10_accepted_roundtrip : forall n o ro e s v f,
   strict o = false /\ strict_allow_default o = false ->
-  wdom n o e s v -> validate f o e s (Some v) = Ok true ->
-  wf_env e = true -> wf_schema s = true -> wf_py v = true ->
+  wdom n o e s v -> validate f o e s (Some v) = Ok true -> data_ok e s v ->
   exists f0, forall f', (f0 <= f')%nat -> exists a,
     elab f' o e s v = WOk a /\ write f' o e s v = WOk (wire a) /\
-    (floats_ok a = true -> forall pv, py_of ro e s a = Some pv ->
+    (forall pv, py_of ro e s a = Some pv ->
        forall f'', (f' <= f'')%nat -> forall r, read f'' ro e s (wire a ++ r)%list = Ok (pv, r)).
-Proof. exact accepted_roundtrip. Qed.
+Proof. exact accepted_roundtrip_py. Qed.
 Print Assumptions C10_accepted_roundtrip.
 
 (** the side condition is satisfiable on a datum with an absent nullable field, an int under "float", a defaulted
